@@ -177,6 +177,9 @@ func Report(p Prop, plan []Batch, tier string, seed int64, results []Result, nre
 			}
 		}
 		b.From, b.To, b.Verbose = r.K, r.K+1, true
+		if r.K < 0 { // a result about the batch as a whole (cumulative effects): replay all of it
+			b.From, b.To = 0, 0
+		}
 		rep := map[string]interface{}{
 			"property": id, "signature": s, "what": r.What, "k": r.K, "batch": b,
 			"occurrences": len(rs), "witness": r.Witness,
@@ -283,9 +286,16 @@ func Replay(path string) int {
 		return 2
 	}
 	work, _ := os.MkdirTemp("", "htv-replay-")
-	defer os.RemoveAll(work)
+	if os.Getenv("VERIF_KEEP") != "" {
+		fmt.Println("keeping work dir", work)
+	} else {
+		defer os.RemoveAll(work)
+	}
 	b := rep.Batch
 	b.NoRestart = true
+	if b.From < 0 {
+		b.From, b.To = 0, 0
+	}
 	recs, exits := RunBatch(b, work)
 	res := p.Judge(b, recs, exits)
 	code := 0
